@@ -29,6 +29,10 @@ extra_dist(files=['README', 'docs/guide.md'], dirs=['licenses'])
 vend = find_files('vendor/*.bin', dist=False)
 uncached = find_files('nocache/*.c', extra='*.hpp', cache=False)
 build_step('stamp.txt', cmd=['touch', 'stamp.txt'], extra_deps=['assets/', 'lone.dep'])
+plat = find_files('plat/**/*.c', filter=filter_by_platform)
+ext = header_directory(%(ext)r)
+genh = header_file(env.builddir.append('config.h'))
+e3 = executable('e3', files=['main3.c'] + plat, includes=[ext])
 """
 FILES = {
     # file -> must it be in the archive?  (None: either way is acceptable)
@@ -44,10 +48,13 @@ FILES = {
     'unrelated.txt': False,
     'vendor/v.bin': False,            # found twice (the second time from the cache), both times dist=False
     'nocache/n.c': True, 'nocache/n.hpp': True,      # an uncached search with extra=
+    # sources for other platforms are not built here but belong to the distribution
+    'plat/common.c': True, 'plat/impl_linux.c': True, 'plat/impl_winnt.c': True, 'plat/winnt/only.c': True,
+    'plat/net_darwin/deep/sock.c': True, 'main3.c': True,
     'lone.dep': True,                 # extra_deps given by name: a file, and a directory (the build file names the directory
     'assets/pic.png': None,           # itself; its content is not referenced)
 }
-C_MAIN = ('main.c', 'private.c', 'sub/sp.c')
+C_MAIN = ('main.c', 'private.c', 'sub/sp.c', 'main3.c')
 
 
 class DistArchive(Bounded):
@@ -76,7 +83,11 @@ class DistArchive(Bounded):
                 os.makedirs(os.path.dirname(fp), exist_ok=True)
                 with open(fp, 'w') as f:
                     f.write(text)
-            w('build.bfg', BUILD_BFG)
+            # a header directory outside the source tree (absolute path) is used, never distributed
+            os.makedirs(top + '/ext/inc')
+            with open(top + '/ext/inc/e.h', 'w') as f:
+                f.write('')
+            w('build.bfg', BUILD_BFG % {'ext': top + '/ext/inc'})
             w('options.bfg', "argument('name', default='x')\nsubmodule('sub')\n")
             w('sub/build.bfg', "executable('subprog', files=['sp.c'])\nfind_files('../vendor/*.bin', dist=False)\n")
             w('sub/options.bfg', "argument('subname', default='y')\n")
